@@ -160,7 +160,14 @@ METADATA_OPTION_TYPES = (R.TLV_FS_REQUEST, R.TLV_MSG_TO_USER, R.TLV_FAULT_HANDLE
 def rand_option(rng):
     t = rng.choice(METADATA_OPTION_TYPES)
     n = rand_len(rng, 40) if rng.random() < 0.9 else rng.choice((254, 255))
-    return [t, rand_bytes(rng, n).hex(), rng.choice(("generic", "concrete"))]
+    how = rng.choice(("generic", "concrete"))
+    if how == "concrete" and t == R.TLV_FAULT_HANDLER:
+        # a typed object needs content its class can parse
+        return [t, bytes([(rng.choice(CONDS) << 4) | rng.choice((1, 2, 3, 4))]).hex(), "concrete"]
+    if how == "concrete" and t == R.TLV_FS_REQUEST:
+        a = rng.choice(range(9))
+        return [t, R.fs_request_value(a, rand_name(rng, 30).encode(), rand_name(rng, 30).encode() if a in R.TWO_NAME_ACTIONS else b"").hex(), "concrete"]
+    return [t, rand_bytes(rng, n).hex(), how]
 
 
 def rand_params(rng, kind, cfg, rich=True):
@@ -255,6 +262,11 @@ def mk_option(o):
             return X.FlowLabelTlv(v)
         if t == R.TLV_ENTITY_ID:
             return X.EntityIdTlv(v)
+        if t == R.TLV_FAULT_HANDLER and len(v) == 1:
+            return X.FaultHandlerOverrideTlv(X.defs.ConditionCode(v[0] >> 4), X.defs.FaultHandlerCode(v[0] & 0xF))
+        if t == R.TLV_FS_REQUEST:
+            d = R.decode_fs_value(v, response=False)
+            return X.FileStoreRequestTlv(X.FilestoreActionCode(d["action"]), d["first"].decode(), d["second"].decode() if d.get("second") is not None else None)
     return X.CfdpTlv(X.TlvType(t), v)
 
 
